@@ -265,6 +265,42 @@ func c01(c *Ctx) {
 
 	c.Rule("C01.R1", "single owner: Aggregator methods are called only from the shard worker loop, from process commands, or by the aggregator itself", 4, func(r *Rule) {
 		nDyn := 0
+		// code that runs on the worker goroutine: work(), function literals it calls in place, and
+		// executeProcess when it exists and is called (synchronously) only from there
+		wkFn := w.Func("pkg/statsd", "(*worker).work")
+		epFn := w.Func("pkg/statsd", "(*worker).executeProcess")
+		onWorker := map[*ssa.Function]bool{}
+		if wkFn != nil {
+			onWorker[wkFn] = true
+			for _, g := range WithAnon(wkFn)[1:] {
+				// a literal inside work that is only ever called where it stands (not started with go, not stored)
+				calledInPlace := false
+				escapes := false
+				for _, h := range WithAnon(wkFn) {
+					eachInstr(h, func(in ssa.Instruction) {
+						switch x := in.(type) {
+						case *ssa.Call:
+							if cal, _ := localCallee(x); cal == g {
+								calledInPlace = true
+							}
+						case *ssa.Go:
+							if mc, ok := x.Call.Value.(*ssa.MakeClosure); ok && mc.Fn == ssa.Value(g) {
+								escapes = true
+							}
+							if f, ok := x.Call.Value.(*ssa.Function); ok && f == g {
+								escapes = true
+							}
+						}
+					})
+				}
+				if calledInPlace && !escapes {
+					onWorker[g] = true
+				}
+			}
+		}
+		if epFn != nil {
+			onWorker[epFn] = true
+		}
 		for _, fn := range w.ModuleFuncs() {
 			if strings.Contains(fnPkgPath(fn), "/internal/fixtures") {
 				continue
@@ -280,7 +316,7 @@ func c01(c *Ctx) {
 				allowed := false
 				why := ""
 				switch {
-				case FuncName(fn) == "(*pkg/statsd.worker).work" && m == "ReceiveMap":
+				case onWorker[fn] && fn != epFn && m == "ReceiveMap":
 					allowed, why = true, "worker loop merges queued maps"
 				case dpf[fn]:
 					allowed, why = true, "function flows into a DispatcherProcessFunc (executed by the worker)"
@@ -301,23 +337,25 @@ func c01(c *Ctx) {
 				if typeIs(cc.Value.Type(), "pkg/statsd", "DispatcherProcessFunc") {
 					nDyn++
 					_, isGo := call.(*ssa.Go)
-					r.Check("call-of-DispatcherProcessFunc:"+FuncName(fn), FuncName(fn) == "(*pkg/statsd.worker).executeProcess" && !isGo, call.Pos(), "process commands are executed only by (*worker).executeProcess, synchronously")
+					r.Check("call-of-DispatcherProcessFunc:"+FuncName(fn), onWorker[fn] && !isGo, call.Pos(), "process commands are executed only on the worker goroutine (work, a literal it calls in place, or executeProcess), synchronously")
 				}
 			}
 		}
 		r.Check("process-command-executor-exists", nDyn >= 1, token.NoPos, fmt.Sprintf("%d call sites of a DispatcherProcessFunc value", nDyn))
 		// executeProcess is called only from work, and not via go
-		ep := w.Func("pkg/statsd", "(*worker).executeProcess")
-		wk := w.Func("pkg/statsd", "(*worker).work")
-		if ep == nil || wk == nil {
-			r.Unresolved("(*worker).executeProcess / work")
+		ep := epFn
+		wk := wkFn
+		if wk == nil {
+			r.Unresolved("(*worker).work")
 			return
 		}
-		for _, fn := range w.ModuleFuncs() {
-			for _, call := range callsIn(fn) {
-				if staticCallee(call) == ep {
-					_, isGo := call.(*ssa.Go)
-					r.Check("executeProcess-caller:"+FuncName(fn), fn == wk && !isGo, call.Pos(), "executeProcess must run on the worker goroutine")
+		if ep != nil {
+			for _, fn := range w.ModuleFuncs() {
+				for _, call := range callsIn(fn) {
+					if staticCallee(call) == ep {
+						_, isGo := call.(*ssa.Go)
+						r.Check("executeProcess-caller:"+FuncName(fn), onWorker[fn] && fn != ep && !isGo, call.Pos(), "executeProcess must run on the worker goroutine")
+					}
 				}
 			}
 		}
